@@ -135,13 +135,13 @@ func (l *Loops) SyncBarrier() error {
 	}
 	// the sentinel is discarded at once by the loop (no transactions), but it can only be
 	// taken after the event taken before it has been handled completely
-	dc <- block.NewDataEvent{Data: &types.Data{}, DAHeight: 0}
+	dc <- block.NewDataEvent{Data: &types.Data{Metadata: &types.Metadata{}}, DAHeight: 0}
 	if err := poll(func() bool { return dead() || len(dc) == 0 }); err != nil {
 		return err
 	}
 	// one more round: the loop may have popped the sentinel while still inside the handler? No -
 	// a single goroutine pops only after finishing. A second sentinel makes sure the first was discarded.
-	dc <- block.NewDataEvent{Data: &types.Data{}, DAHeight: 0}
+	dc <- block.NewDataEvent{Data: &types.Data{Metadata: &types.Metadata{}}, DAHeight: 0}
 	if err := poll(func() bool { return dead() || len(dc) == 0 }); err != nil {
 		return err
 	}
